@@ -18,6 +18,7 @@ import subprocess
 import sys
 from pathlib import Path
 
+import re
 import numpy as np
 
 VERIF = Path(__file__).resolve().parent.parent.parent
@@ -243,14 +244,26 @@ def sanitizers(ck):
         ck.note("sanitizer overlay could not be built: %s" % str(e)[:300])
         return
     libasan = subprocess.run(["gcc", "-print-file-name=libasan.so"], capture_output=True, text=True).stdout.strip()
-    kernels = [n for n in sorted(CATALOGUE) if any(k in n for k in ("quantile", "median", "histogram", "intvol", "_joint", "_cspline", "blas", "bindings", "ve_step", "knn", "Field", "registration.resample", "Forest", "ward", "kmeans"))]
-    env = {"LD_PRELOAD": libasan, "ASAN_OPTIONS": "detect_leaks=0:abort_on_error=1:halt_on_error=1", "UBSAN_OPTIONS": "halt_on_error=1:abort_on_error=1",
+    kernels = [n for n in sorted(CATALOGUE) if any(k in n for k in ("quantile", "median", "histogram", "intvol", "_joint", "_cspline", "blas", "bindings", "HistogramRegistration", "PolyAffine", "ve_step", "knn", "Field", "registration.resample", "Forest", "ward", "kmeans"))]
+    env = {"LD_PRELOAD": libasan, "ASAN_OPTIONS": "detect_leaks=0:abort_on_error=1:halt_on_error=1", "UBSAN_OPTIONS": "halt_on_error=1:abort_on_error=1:print_stacktrace=1",
            "VERIF_SANITIZE_OVERLAY": str(o["dir"])}
     records, crashes = run_workers(ck, kernels, ck.n(1, 3), env_extra=env, tag="san")
     for c in crashes:
         d = c["during"]
         rep = {"crash": c}
         sig = "sanitizer/%s" % (d["name"] if d else "worker")
+        # refine by what the sanitizer reported and where (function name from the stack trace, else file:line),
+        # so that a recorded finding cannot hide a different error in the same routine family
+        m = re.search(r"([\w./-]+\.[ch]):(\d+):\d+: runtime error: ([^\n]*)", c["stderr"])
+        if m:
+            kind = m.group(3).split(":")[0][:60].strip().replace(" ", "-")
+            fn = re.search(r"#0 0x[0-9a-f]+ in (\w+)", c["stderr"])
+            sig += "/%s:%s/%s" % (os.path.basename(m.group(1)), fn.group(1) if fn else m.group(2), kind)
+        else:
+            m = re.search(r"ERROR: AddressSanitizer: ([\w-]+)", c["stderr"])
+            if m:
+                fn = re.search(r"#0 0x[0-9a-f]+ in (\w+)", c["stderr"])
+                sig += "/asan-%s%s" % (m.group(1), ("/" + fn.group(1)) if fn else "")
         ck.fail(sig, "sanitizer-instrumented kernels aborted (exit %s): %s" % (c["returncode"], c["stderr"][-400:]), rep,
                 found_input=d is not None)
     ck.section("sanitizers", kernels=kernels, calls=len(records), aborted=len(crashes))
